@@ -10,6 +10,11 @@ immediately at registration followed on the spot):
   R-LOCK-OBJ    within one layer (an executor, its gate, its counters and the futures it creates) the relation
                 'held -> acquired' over lock roles is acyclic
   R-GATE-REENTRANT  the shutdown gate, held by submit() across user code, is re-entrant
+  R-GATE-FIRST  shutdown() sets the executor's own flag before it calls the delegate's / base class's shutdown (a
+                callback the delegate runs under its own non-reentrant shutdown lock is refused at the gate instead
+                of blocking on that lock; shared with C11)
+  R-BLOCK-SELF  the throttle executor's blocking submit waits on the queue length only, so a running callable's
+                nested submit never waits for its own caller (rows shared with C07)
 Not decided: freedom from deadlock of arbitrary stacks and client programs; cross-layer cycles through the
 per-future locks of different layers cannot be separated at class granularity.
 """
